@@ -69,8 +69,11 @@ FAMILIES_THOROUGH = [(f, n * 15, kw) for f, n, kw in FAMILIES_QUICK]
 
 # round-c families (generators in _hist2.py)
 FAMILIES2_QUICK = [("checksonly", 4, {}), ("checksonly", 2, {"minimal": True}), ("dirtaint", 3, {}), ("dirtaint", 1, {"minimal": True}),
-                   ("interrupt", 3, {}), ("interrupt", 1, {"minimal": True})]
-GEN2 = {"checksonly": H2.gen_checksonly, "dirtaint": H2.gen_dirtaint, "interrupt": H2.gen_interrupt}
+                   ("interrupt", 3, {}), ("interrupt", 1, {"minimal": True}),
+                   # round d (appended, so that the histories of the families above stay what they were)
+                   ("testcmd", 3, {}), ("testcmd", 1, {"minimal": True}), ("bigout", 2, {}), ("bigout", 1, {"minimal": True})]
+GEN2 = {"checksonly": H2.gen_checksonly, "dirtaint": H2.gen_dirtaint, "interrupt": H2.gen_interrupt,
+        "testcmd": H2.gen_testcmd, "bigout": H2.gen_bigout}
 
 
 def run(ctx):
@@ -97,7 +100,8 @@ def run(ctx):
                             "package; taintdis = cache-disabled build while tainted; outless = 40% targets without outputs (also no-cache) under minimal; "
                             "tool = a no-cache target whose only output is a script that is also its input, with a cached dependant; round-c families: "
                             + ", ".join("%s%s x%d" % (f, "(minimal)" if kw.get("minimal") else "", n) for f, n, kw in FAMILIES2_QUICK) +
-                            " (checksonly = targets without inputs and outputs that only carry output checks, cached and no-cache, tainted / built with the cache "
+                            " (round d: testcmd = `grog test` steps next to `grog build`, the cache disabled by flag / GROG_ENABLE_CACHE / grog.toml; bigout = a no-cache target "
+                            "rewriting a 9 MiB file output with cached dependants; checksonly = targets without inputs and outputs that only carry output checks, cached and no-cache, tainted / built with the cache "
                             "disabled; dirtaint = a tainted target with a dir:: output and dependants reproduces identical outputs; interrupt = the build that runs a "
                             "tainted target is interrupted by SIGINT/SIGTERM while a dependant of it is running); non-trivial = distinct history with >=2 builds, one executing and one with a hit")
     recs = H.run_both(ctx, hists, "c13")
